@@ -36,7 +36,8 @@ Proof. exact source_confined_proof. Qed.
 Print Assumptions source_confined.
 
 (** 4b. Where an accepted generates= entry ends up on disk.  [site_gen root pkg g] is builtin_target's loop:
-    repoSourcePath, strings.Split, filepath.Join(root, filepath.Join(components...)).  For a project at ANY
+    repoSourcePath, rejection of an entry that names the root itself, strings.Split,
+    filepath.Join(root, filepath.Join(components...)).  For a project at ANY
     absolute [root], the stored OS path is "/" followed by the components of the cleaned root followed by zero or
     more components none of which is "..": the root itself or a location below it, element-wise (a sibling
     directory whose name merely extends the root's name is not of that form). *)
@@ -125,7 +126,8 @@ Proof. vm_compute. repeat split; reflexivity. Qed.
 
 (* project at /w/proj: from package // the entry "../proj-o/x" (a sibling whose name extends the root's) is
    rejected and the rooted "/../proj-o/x" is clamped to /w/proj/proj-o/x; from //s, "../x" is /w/proj/x and
-   "." from // is the root itself; sources= resolve alike *)
+   sources= resolve alike; "." from // names the root itself: rejected for generates= (it names no file), accepted
+   for sources= (a source may be a directory) *)
 Example ex_sites :
   site_gen [47;119;47;112;114;111;106] [47;47] [46;46;47;112;114;111;106;45;111;47;120] = None /\
   site_src [47;119;47;112;114;111;106] [47;47] [46;46;47;112;114;111;106;45;111;47;120] = None /\
@@ -133,7 +135,8 @@ Example ex_sites :
   site_src [47;119;47;112;114;111;106] [47;47] [47;46;46;47;112;114;111;106;45;111;47;120] = Some [47;119;47;112;114;111;106;47;112;114;111;106;45;111;47;120] /\
   site_gen [47;119;47;112;114;111;106] [47;47;115] [46;46;47;120] = Some [47;119;47;112;114;111;106;47;120] /\
   site_src [47;119;47;112;114;111;106] [47;47;115] [46;46;47;120] = Some [47;119;47;112;114;111;106;47;120] /\
-  site_gen [47;119;47;112;114;111;106] [47;47] [46] = Some [47;119;47;112;114;111;106] /\
+  site_gen [47;119;47;112;114;111;106] [47;47] [46] = None /\
+  site_src [47;119;47;112;114;111;106] [47;47] [46] = Some [47;119;47;112;114;111;106] /\
   gp_clean_comps [47;119;47;112;114;111;106] = [[119]; [112;114;111;106]].
 Proof. vm_compute. repeat split; reflexivity. Qed.
 
